@@ -27,6 +27,7 @@ def leaves(tier="quick"):
 UN = {
     "T": AB.UNARY["T"], "H": AB.UNARY["H"], "neg": AB.UNARY["neg"],
     "lmul": lambda a: [["lmul", c, a] for c in ("m3", "half", "cj")],
+    "selfprod": lambda a: [["gram", "AA", a], ["gram", "AAA", a]],  # ONE operator object used two / three times in a product
 }
 BI = {
     "matmul": lambda a, b: [["matmul", a, b]],
@@ -45,7 +46,7 @@ def terms(tier, max_dim=36):
     L = AB.with_shapes(leaves(tier))
     un, bi = UN, BI
     if tier == "quick":
-        un = {"T": UN["T"], "H": UN["H"], "lmul": lambda a: [["lmul", "m3", a]]}
+        un = {"T": UN["T"], "H": UN["H"], "lmul": lambda a: [["lmul", "m3", a]], "selfprod": UN["selfprod"]}
         bi = {"matmul": BI["matmul"], "kron": BI["kron"], "BlockDiag": lambda a, b: [["BlockDiag", [a, b], [2, 1]]]}
     l1 = square(AB.grow([L], unary=un, binary=bi, ternary=TE, ternary_pool=L[:3] + L[12:13] + L[15:16] + L[23:24], max_dim=max_dim))
     out = L + l1
